@@ -16,7 +16,7 @@
    reference semantics (RefSem.v: deliver / deliver_block / deliver_list / loop_test), which
    the correspondence check compares with the implementation and with the net model on every
    run (all completion orders of generated programs, incl. re-entrant ones). *)
-From PFDL Require Import RefSem RunCase Monitors RefShape RefDen RefC01.
+From PFDL Require Import RefSem RunCase Monitors RefShape RefDen RefC01 RefBase RefProgress RefConfluence.
 
 Theorem C15_sync_partial :
   forall orc body fuel (s : sched) b s',
@@ -35,3 +35,40 @@ Theorem C15_all_schedules_no_stall :
     run_script orc imm fuel body sched0 script = Ok tr -> holds_C01 tr = true.
 Proof. exact C01_ref. Qed.
 Print Assumptions C15_all_schedules_no_stall.
+
+(* ==== ALL schedules (RefConfluence.v) ==== *)
+(* all schedules, counter-free oracle: the history of a completed order is a permutation of the
+   denotation, and no event ever occurs more often than in the denotation (every parameter list / index exactly as often as in the denotation) *)
+Theorem C15_confluence :
+  forall orc imm fuel body script tr,
+    counter_free orc ->
+    run_script orc imm fuel body sched0 script = Ok tr ->
+    (exists r, In r tr /\ cr_final r = true) ->
+    exists F mid q',
+      den_block orc F [] body 0 0 = Ok (mid, q') /\
+      Permutation.Permutation
+        (trace_devs tr)
+        (DN TS production_task root_site [] :: mid ++ [DN TF production_task root_site []]).
+Proof. exact confluence. Qed.
+Print Assumptions C15_confluence.
+
+Theorem C15_confluence_count :
+  forall orc imm fuel body script tr F mid q' (p : dev -> bool),
+    counter_free orc ->
+    run_script orc imm fuel body sched0 script = Ok tr ->
+    (exists r, In r tr /\ cr_final r = true) ->
+    den_block orc F [] body 0 0 = Ok (mid, q') ->
+    List.length (filter p (trace_devs tr)) =
+    List.length (filter p (DN TS production_task root_site [] :: mid ++ [DN TF production_task root_site []])).
+Proof. exact confluence_count. Qed.
+Print Assumptions C15_confluence_count.
+
+Theorem C15_confluence_prefix_count :
+  forall orc imm fuel body script tr F mid q' (p : dev -> bool),
+    counter_free orc ->
+    run_script orc imm fuel body sched0 script = Ok tr ->
+    den_block orc F [] body 0 0 = Ok (mid, q') ->
+    List.length (filter p (trace_devs tr)) <=
+    List.length (filter p (DN TS production_task root_site [] :: mid ++ [DN TF production_task root_site []])).
+Proof. exact confluence_prefix_count. Qed.
+Print Assumptions C15_confluence_prefix_count.
